@@ -378,6 +378,38 @@ def run(ctx):
                 n6 += 1
                 ctx.inst("C01.R6", "%s#signed-%s-of-user-cast[%d]" % (n.replace(CORE, ""), site, k), False, "%s of a signed integer that is a saturating cast of a user number: the minimum of the type is reachable and has no %s (overflow panic in the dev profile)" % (site, "positive counterpart" if site != "pow" else "bounded power"), fn.loc(b))
                 k += 1
+    # `x - k` where x is an unsigned integer cast from a float (the cast saturates at 0 for every non-positive float): underflows unless a
+    # zero test of that very x exits first
+    for n in local:
+        fn = M.Fn(cg.fns[n], n)
+        k = 0
+        for b in range(fn.n):
+            t = fn.term(b)
+            if not (t["k"] == "assert" and t["msg"] == "Overflow:Sub" and not t["sp"][5] and len(t.get("ops", [])) == 2):
+                continue
+            a_, b_ = t["ops"]
+            if "int" not in b_ or int(b_["int"]) < 1:
+                continue
+            roots = fn.trace(a_)
+            from_float = any(any(str(p).startswith("as:u") and str(p).endswith(":FloatToInt") for p in (r[2] if r[0] in ("param", "local") else r[3] if r[0] in ("call", "agg") else [])) for r in roots)
+            if not from_float:
+                continue
+            pl = fn.op_place(a_)
+            base = fn.ref_root(pl) if pl is not None else None
+            guarded = False
+            for gb in range(fn.n):
+                tt = fn.term(gb)
+                if tt["k"] != "switch" or not fn.dominates(gb, b) or gb == b:
+                    continue
+                for s_ in fn.stmts(gb):
+                    if s_["k"] == "assign" and s_["rv"]["k"] == "binop" and s_["rv"]["op"] in ("Eq", "Ne", "Gt", "Ge", "Lt", "Le"):
+                        for o_ in (s_["rv"]["a"], s_["rv"]["b"]):
+                            p2 = fn.op_place(o_)
+                            if p2 is not None and base is not None and fn.ref_root(p2) == base and len([x for x in fn.succ(gb) if b in fn.reachable(x)]) == 1:
+                                guarded = True
+            n6 += 1
+            ctx.inst("C01.R6", "%s#float-cast-minus-%s[%d]" % (n.replace(CORE, ""), b_["int"], k), guarded, "an unsigned integer cast from a float (0 for every non-positive float) minus %s; a test of it that exits comes first: %s" % (b_["int"], guarded), fn.loc(b))
+            k += 1
     # unsigned subtraction of a quantity computed from a float (a digit count, a magnitude): nothing bounds it below the minuend unless
     # the two are compared first
     for n in local:
@@ -595,6 +627,23 @@ def run(ctx):
     ctx.inst("C01.R11", "scan", True, "%d computed-offset string slices in reachable code" % n11, None)
     ctx.inst("C01.R11", "control#constant-prefix-slices", ctrl >= 1, "the pattern matches %d constant-bound slices (`0x`/`#` prefixes in the AST builder): the rule is not vacuous" % ctrl, None)
 
+    # a String cut at a constant byte offset: the text is a rendered user value (an error message quoting an operand), and byte 64 of
+    # arbitrary text is the middle of a character as often as not - `truncate` / `split_off` panic unless the offset is a char boundary
+    n_cut = 0
+    for n in local:
+        fn = M.Fn(cg.fns[n], n)
+        k = 0
+        for b in fn.call_blocks():
+            c = fn.callee(b) or ""
+            if re.search(r"^alloc::string::String::(truncate|split_off|insert|insert_str|remove|drain|replace_range)$", c) and not fn.term(b)["sp"][5]:
+                args_ = fn.term(b)["args"]
+                if len(args_) >= 2 and all(r[0] == "const" for r in fn.trace(args_[1])) and not all(r[0] == "const" and re.match(r"(const )?0_usize", r[1]) for r in fn.trace(args_[1])):
+                    recv_const = all(r[0] in ("const", "static") for r in fn.trace(args_[0]))
+                    if not recv_const:
+                        n_cut += 1
+                        ctx.inst("C01.R11", "%s#%s-at-constant-offset[%d]" % (n.replace(CORE, ""), H.last(c), k), False, "%s at a constant byte offset of a text that is not a constant: panics when the offset falls inside a multi-byte character" % H.last(c), fn.loc(b))
+                        k += 1
+    ctx.inst("C01.R11", "constant-offset-cuts#none", n_cut == 0, "String::truncate / split_off / insert / remove at a constant non-zero byte offset of a computed text: %d" % n_cut, None)
     # ---------------- R12 unwrap / expect on results that depend on input values
     ctx.rule("C01.R12", "no unwrap/expect on an Option/Result produced by a routine that fails for some input VALUE (non-finite number to JSON, text to number, out-of-range conversions, checked arithmetic, parsing stored function text): such failures are reported as errors", floor=1)
     VALUE_FALLIBLE = [
@@ -607,6 +656,7 @@ def run(ctx):
         (r"^serde_json::(de::)?from_(str|slice|value|reader)", "Err on malformed input"),
         (r"^blots_core::values::SerializableValue::to_value$|^blots_core::parser::get_pairs$|^blots_core::expressions::pairs_to_expr", "Err when stored or given source text does not parse"),
         (r"^(core::str::converts|alloc::string::String)::from_utf8", "Err on invalid UTF-8 produced by byte slicing"),
+        (r"^std::path::Path::(try_exists|metadata|symlink_metadata|canonicalize|read_link|read_dir)$|^std::fs::(metadata|symlink_metadata|canonicalize|read_link|read_dir|read_to_string|read)$", "Err for a path the OS refuses - e.g. an inline program taken for a file name longer than NAME_MAX (ENAMETOOLONG)"),
     ]
     UNWRAPS = ("core::option::Option::<T>::unwrap", "core::option::Option::<T>::expect", "core::result::Result::<T, E>::unwrap", "core::result::Result::<T, E>::expect")
     n12 = 0
